@@ -29,6 +29,10 @@ type Resp struct {
 	PreSignals int    `json:"pre_signals,omitempty"` // signals emitted by the step before the answer
 	PreUnknown int    `json:"pre_unknown,omitempty"` // messages with an unknown message ID before the answer
 	DelayMs    int    `json:"delay_ms,omitempty"`
+	// Data, when set, is the output data the peer answers with (the in-process result of the step on a
+	// reference plugin) instead of an echo of the input
+	Data    any  `json:"data,omitempty"`
+	HasData bool `json:"has_data,omitempty"`
 }
 
 // CCall is one Execute of a client-side workload.
@@ -76,6 +80,7 @@ type ClientOpts struct {
 	ServerFatal bool
 	BadVersion  bool
 	BadSchema   bool
+	RealAnswers bool // the peer is a stub plugin: it answers with what CallStep returns in process
 	Unknown     bool
 	Delays      bool
 }
@@ -94,6 +99,8 @@ func clientOptsFor(batch string) ClientOpts {
 		return ClientOpts{MaxCallers: 3, MaxCalls: 3, Signals: true, Errors: true, Delays: true, Unknown: true}
 	case "c06.peerv1":
 		return ClientOpts{V1: true, MaxCallers: 1, MaxCalls: 4}
+	case "c05.v1":
+		return ClientOpts{V1: true, MaxCallers: 1, MaxCalls: 4, RealAnswers: true}
 	}
 	return ClientOpts{MaxCallers: 2, MaxCalls: 2}
 }
@@ -138,6 +145,21 @@ func PlanClient(s Src, o ClientOpts) *ClientPlan {
 			vg := &ValGen{S: s, Scope: &st.Input}
 			call.Input = vg.Object(st.Input.Root, map[string]any{"nonce": call.Nonce})
 			call.Resp = Resp{Kind: "workdone", OutputID: []string{"success", "alt", "error"}[s.Choose("cl.outid", 3)]}
+			if o.RealAnswers {
+				// a v1 stub plugin: the answer is what the step returns in process; v1 has no error message,
+				// so calls whose reference fails are left out of the transcript
+				beh := Behaviour{Kind: []string{"ok", "ok", "alt", "error"}[s.Choose("cl.beh", 4)]}
+				ref := BuildPlugin(p.Plugin, newRecorder(map[string]Behaviour{call.Nonce: beh}))
+				nin, nerr := Norm(call.Input)
+				if nerr != nil {
+					continue
+				}
+				want := RefCall(ref, call.RunID, call.Step, nin)
+				if want.Err != nil {
+					continue
+				}
+				call.Resp.OutputID, call.Resp.Data, call.Resp.HasData = want.OutputID, want.Data, true
+			}
 			if o.Errors && !o.V1 {
 				switch s.Choose("cl.respkind", 8) {
 				case 1:
@@ -239,6 +261,13 @@ func findNonce(config any) string {
 
 func (ss *scriptedServer) answer(runID string, call *CCall, config any) []byte {
 	var data any
+	if call.Resp.HasData {
+		wd := map[string]any{"step_id": call.Step, "output_id": call.Resp.OutputID, "output_data": call.Resp.Data, "debug_logs": ""}
+		if ss.plan.Version == 1 {
+			return enc(wd)
+		}
+		return runtimeMsg(atp.MessageTypeWorkDone, runID, wd)
+	}
 	switch call.Resp.OutputID {
 	case "alt":
 		data = map[string]any{"nonce": call.Nonce, "count": int64(7)}
@@ -342,6 +371,12 @@ func (ss *scriptedServer) run() {
 					_ = ss.write(runtimeMsg(atp.MessageTypeError, runID, map[string]any{"error": "step failed", "step_fatal": true, "server_fatal": false}))
 				case "serverfatal":
 					_ = ss.write(runtimeMsg(atp.MessageTypeError, "", map[string]any{"error": "server is dying", "step_fatal": true, "server_fatal": true}))
+					// a plugin that reported a server-fatal error is on its way out: the process ends and the
+					// OS closes its descriptors (it does not keep answering other runs for ever into a pipe the
+					// client has, by protocol, stopped reading)
+					rt.Yield(siteSrv)
+					ss.c2s.KillRead()
+					ss.s2c.KillWrite()
 				default:
 					_ = ss.write(ss.answer(runID, call, config))
 				}
@@ -787,6 +822,12 @@ func JudgeClient(prop string, plan *ClientPlan, fault ClientFault, obs *ClientOb
 						add("mismatch", "healthy-call-failed", fmt.Sprintf("call %s: the peer answered with work-done but Execute returned error: %v", call.RunID, got.Res.Error))
 					} else if got.Res.OutputID != call.Resp.OutputID {
 						add("mismatch", "healthy-output-id", fmt.Sprintf("call %s: want %q got %q", call.RunID, call.Resp.OutputID, got.Res.OutputID))
+					} else if call.Resp.HasData {
+						wn, _ := Norm(call.Resp.Data)
+						gn, _ := Norm(got.Res.OutputData)
+						if !reflect.DeepEqual(wn, gn) {
+							add("mismatch", "output-data", fmt.Sprintf("call %s over ATP v1: in-process result %s, Execute returned %s", call.RunID, short(wn), short(gn)))
+						}
 					}
 					if call.WithChans && got.FromStep != call.Resp.PreSignals {
 						add("mismatch", "signals-from-step-lost", fmt.Sprintf("call %s: the peer emitted %d signals before the result, the caller received %d", call.RunID, call.Resp.PreSignals, got.FromStep))
@@ -1025,7 +1066,13 @@ func (e clientEngine) runOne(t *testing.T, batch string, plan *ClientPlan, fault
 		rec.Reason = "premise not met: client writes failed but the server stream never ended or garbled"
 		return rec
 	}
-	if fault.Kind == "stall" && fault.StallMs >= 5000 && fault.WriteAt >= 0 && obs.C2S != nil && obs.C2S.WriteFaultFired() {
+	closeGaveUp := false
+	for _, p := range out.Panics {
+		if strings.Contains(p.Value, "potential deadlock after client") {
+			closeGaveUp = true
+		}
+	}
+	if fault.Kind == "stall" && fault.StallMs >= 5000 && (closeGaveUp || (fault.WriteAt >= 0 && obs.C2S != nil && obs.C2S.WriteFaultFired())) {
 		// Close gives up waiting for its read loop 5 s after a failed client-done write; a server stream that is
 		// still silent (not yet ended) at that moment is outside the premise
 		rec.Outcome = "excluded"
